@@ -54,7 +54,7 @@ def fileExc (u : Url) : Bool :=
 def reparseOk (idna : Idna) (u : Url) : Bool := parse idna .u8 (serialize u) none == some u
 
 def publicDump (idna : Idna) (u : Url) : String :=
-  s!"V href={hx (serialize u)} origin={hx (origin idna u)} protocol={hx (getProtocol u)} username={hx u.username} password={hx u.password} host={hx (getHost u)} hostname={hx (getHostname u)} port={hx (getPort u)} pathname={hx (pathText u)} search={hx (getSearch u)} hash={hx (getHash u)} path={hx (getPath u)} nulls={b01 u.host.isNone}{b01 u.port.isNone}{b01 u.query.isNone}{b01 u.fragment.isNone} ht={match u.host with | some h => hostKindCode h.kind | none => 0} op={b01 u.hasOpaquePath}"
+  s!"V href={hx (serialize u)} origin={hx (origin idna u)} protocol={hx (getProtocol u)} username={hx u.username} password={hx u.password} host={hx (getHost u)} hostname={hx (getHostname u)} port={hx (getPort u)} pathname={hx (pathText u)} search={hx (getSearch u)} hash={hx (getHash u)} path={hx (getPath u)} nulls={b01 u.host.isNone}{b01 u.port.isNone}{b01 u.query.isNone}{b01 u.fragment.isNone} ht={match u.host with | some h => hostKindCode h.kind | none => 0} op={b01 u.hasOpaquePath} pi={match u.port with | some p => toString p | none => "-1"} rpi={match u.port with | some p => toString p | none => (match defaultPort u.scheme with | some d => toString d | none => "-1")} sf={b01 u.isSpecial}{b01 u.isFile}{b01 (u.scheme == sHttp || u.scheme == sHttps)}{b01 u.hasCredentials}"
 
 def hiddenDump (idna : Idna) (u : Url) : String :=
   let r := layout u
